@@ -117,6 +117,30 @@ inline const std::map<std::string, Fn2> &binary_table()
     return t;
 }
 
+inline bool contains_kind(const Basic &b, std::initializer_list<TypeID> kinds, int depth = 0)
+{
+    for (auto k : kinds)
+        if (b.get_type_code() == k)
+            return true;
+    if (depth > 100)
+        return true;
+    for (auto &a : b.get_args())
+        if (contains_kind(*a, kinds, depth + 1))
+            return true;
+    return false;
+}
+inline bool contains_zoo(const Basic &b, int depth = 0)
+{
+    if (eq(b, *ComplexInf))
+        return true;
+    if (depth > 100)
+        return true;
+    for (auto &a : b.get_args())
+        if (contains_zoo(*a, depth + 1))
+            return true;
+    return false;
+}
+
 // Build an expression from a recipe. Domain errors of constructors surface
 // as SymEngineException / BuildError; callers treat a recipe that cannot be
 // built as "skip" (never as a violation).
@@ -330,6 +354,11 @@ inline RCP<const Basic> build(const Json &r, const Pool &pool, int depth = 0)
     }
     if (op == "diff") { // ["diff", e, symindex...] : symbolic derivative
         RCP<const Basic> e = arg(1);
+        // differentiating through unevaluated Subs objects or polynomial
+        // nodes can recurse without end (a pure-input defect of diff, outside
+        // the properties these recipes serve): unbuildable
+        if (contains_kind(*e, {SYMENGINE_SUBS, SYMENGINE_URATPOLY, SYMENGINE_UINTPOLY}))
+            throw BuildError("diff through Subs / polynomial nodes");
         for (size_t k = 2; k < r.size(); k++)
             e = e->diff(sym_n(r[k].as_int()));
         return e;
@@ -360,8 +389,15 @@ inline RCP<const Basic> build(const Json &r, const Pool &pool, int depth = 0)
     {
         auto &u = unary_table();
         auto it = u.find(op);
-        if (it != u.end())
-            return it->second(arg(1));
+        if (it != u.end()) {
+            RCP<const Basic> a1 = arg(1);
+            // conjugate(zoo*x) makes an invalid downcast inside the
+            // constructor (a pure-input defect outside the properties these
+            // recipes serve): such a recipe counts as unbuildable
+            if (op == "conjugate" && contains_zoo(*a1))
+                throw BuildError("conjugate of an expression containing zoo");
+            return it->second(a1);
+        }
         auto &b = binary_table();
         auto jt = b.find(op);
         if (jt != b.end())
